@@ -56,10 +56,46 @@ func drawCrashes(t *rapid.T, nprocs int, maxAt int) []Crash {
 
 func genC05(t *rapid.T) Case {
 	c := genC05base(t)
-	if rapid.IntRange(0, 7).Draw(t, "cancelFamily") == 5 {
+	switch rapid.IntRange(0, 7).Draw(t, "cancelFamily") {
+	case 5:
 		cancelFamily(t, &c, c.Cfg.HashSize())
+	case 6:
+		gcInsideCompaction(t, &c)
 	}
 	return c
+}
+
+// gcInsideCompaction: the garbage-collecting steps the property names (reload, Close, Clean)
+// run by a second handle entirely inside the window in which a compaction by the first has
+// given the list lock back and is merging - with file writes as yield points in half of the
+// cases, so that the merged table is also seen unfinished.
+func gcInsideCompaction(t *rapid.T, c *Case) {
+	hs := c.Cfg.HashSize()
+	c.Family = "gc-step-inside-a-compaction"
+	c.InitAuto, c.Init, c.Crashes = false, nil, nil
+	for i := 0; i < rapid.IntRange(2, 5).Draw(t, "ninitG"); i++ {
+		tx := drawTx(t, "init/g"+strconv.Itoa(i), hs, c.Cfg.Exact)
+		c.Init = append(c.Init, InitOp{Tx: &tx})
+	}
+	comp := drawOp(t, OpWeights{KCompactAll: 3, KCompactRange: 3, KAutoCompact: 1, KExpire: 1, KAdd: 1}, "p0/g", hs, c.Cfg.Exact)
+	c.Progs = []Prog{{Auto: true, Ops: []POp{{Kind: KOpen}, comp}}}
+	gc := Prog{Ops: []POp{{Kind: KOpen}}}
+	for i := 0; i < rapid.IntRange(1, 3).Draw(t, "ngc"); i++ {
+		gc.Ops = append(gc.Ops, drawOp(t, OpWeights{KClean: 4, KClose: 2, KOpen: 1, KRead: 2, KAdd: 1, KAbandon: 1}, "p1/g"+strconv.Itoa(i), hs, c.Cfg.Exact))
+	}
+	c.Progs = append(c.Progs, gc)
+	c.YieldOnWrite = rapid.Bool().Draw(t, "yieldOnWriteG")
+	maxK := 30
+	if c.YieldOnWrite {
+		maxK = 60
+	}
+	k := rapid.IntRange(3, maxK).Draw(t, "k0G")
+	// process 0 is pre-empted k filesystem calls into its compaction; process 1 then runs all
+	// of its operations; in half of the cases process 1 had opened its handle beforehand
+	c.Sched = SchedSpec{Kind: "ops", OpSegs: [][2]int{{0, 2}}, Pre: [][5]int{{0, 1, k, 1, 100}}}
+	if rapid.Bool().Draw(t, "gcOpensFirst") {
+		c.Sched.OpSegs = [][2]int{{1, 1}, {0, 2}}
+	}
 }
 
 func genC05base(t *rapid.T) Case {
